@@ -18,7 +18,7 @@ TraceLog == ndJsonDeserialize(IOEnv.TRACE)
 VARIABLES l, rejected
 tvars == <<vars, l, rejected>>
 
-Idle == /\ fmt = "" /\ doc = <<>> /\ fault = NoFault /\ verdict = Required(<<>>)
+Idle == /\ fmt = "" /\ doc = <<>> /\ fault = NoFault /\ verdict = Required(<<>>, TRUE)
 
 TInit == Idle /\ l = 1 /\ rejected = 0
 
@@ -29,7 +29,7 @@ TGen == /\ IsEv("Gen") /\ fmt = ""
         /\ fmt' = TraceLog[l].f
         /\ doc' = Doc[fmt']
         /\ fault' = NoFault
-        /\ verdict' = Required(doc')
+        /\ verdict' = Required(doc', TRUE)
         /\ l' = l + 1 /\ UNCHANGED rejected
 
 TInject == /\ IsEv("Inject") /\ fmt # ""
@@ -40,13 +40,13 @@ Obs(e) == [sym |-> e.sym, values |-> e.values, entries |-> e.entries, invalid |-
 
 TObserve == /\ IsEv("Observe") /\ fmt # ""
             /\ LET e == TraceLog[l]
-                   ok == Accept(doc, Obs(e))
-               IN /\ (ok \/ PrintT(<<"REJECT", e.id, Why(doc, Obs(e)), fmt, fault.kind, fault.pos, fault.role>>)) = TRUE
+                   ok == Accept(verdict.bound, Obs(e))
+               IN /\ (ok \/ PrintT(<<"REJECT", e.id, Why(verdict.bound, Obs(e)), fmt, fault.kind, fault.pos, fault.role>>)) = TRUE
                   /\ rejected' = rejected + (IF ok THEN 0 ELSE 1)
             /\ l' = l + 1 /\ UNCHANGED vars
 
 TReset == /\ IsEv("Reset")
-          /\ fmt' = "" /\ doc' = <<>> /\ fault' = NoFault /\ verdict' = Required(<<>>)
+          /\ fmt' = "" /\ doc' = <<>> /\ fault' = NoFault /\ verdict' = Required(<<>>, TRUE)
           /\ l' = l + 1 /\ UNCHANGED rejected
 
 TNext == TGen \/ TInject \/ TObserve \/ TReset
